@@ -96,6 +96,7 @@ Lemma w_valid_accepted : validate current_fixes ueq_c08 false w_valid = [].
 Proof. vm_compute. reflexivity. Qed.
 
 From LC Require Import ValidLeaf ValidCompProofs ValidUnitsProofs ValidProofs.
+From Coq Require Import Lia.
 
 Lemma w_valid_repr : Repr (model_at w_valid 0).
 Proof. split; cbn; repeat constructor; cbn; intuition discriminate. Qed.
@@ -175,3 +176,29 @@ Lemma w_diff_operand_facts :
   validate current_fixes ueq_c08 false w_diff_of_cn = [(Error, V_MATH_MATHML)]
   /\ validate current_fixes ueq_c08 false w_diff_of_ci = [].
 Proof. vm_compute. split; reflexivity. Qed.
+
+(* ------------------------------------------------------------------ resolved component imports: what IS checked *)
+
+From LC Require Import ValidImportProofs.
+
+Lemma w_import_child_repr : Repr (model_at w_import_child 0).
+Proof. split; cbn; repeat constructor; cbn; intuition discriminate. Qed.
+
+Lemma w_import_child_forward : imports_forward w_import_child.
+Proof.
+  intros mi c s cref mj Hc Hi Hm. destruct mi as [|[|mi]].
+  - cbn in Hc. destruct Hc as [Hc|[]]. subst c. cbn in Hi. inversion Hi; subst. cbn in Hm. inversion Hm; subst. cbn. lia.
+  - cbn in Hc. destruct Hc as [Hc|[Hc|[]]]; subst c; cbn in Hi; discriminate Hi.
+  - exfalso. unfold model_at in Hc. cbn in Hc. destruct mi; cbn in Hc; destruct Hc.
+Qed.
+
+(** the world of finding C04-imported-component-children satisfies the specification of what the validator checks through a
+    resolved import (the target 'parent' is fine) although the component 'child' it encapsulates is not *)
+Lemma w_import_child_wfr : WFr current_fixes ueq_c08 w_import_child.
+Proof.
+  apply (validate_nil_iff_resolved current_fixes ueq_c08 w_import_child w_import_child_repr).
+  - intros u [].
+  - exact w_import_child_forward.
+  - cbn. lia.
+  - exact (proj1 w_import_child_facts).
+Qed.
